@@ -21,7 +21,9 @@ const SLOT: usize = (1 << 20) + 8192;
 const SLOTS: usize = 64;
 
 fn profile_name() -> &'static str {
-    if cfg!(debug_assertions) {
+    if !vlib::real::has_runtime_dispatch() {
+        "release, httparse built with SIMD disabled (CARGO_CFG_HTTPARSE_DISABLE_SIMD=1: the cfg(not(httparse_simd)) code paths)"
+    } else if cfg!(debug_assertions) {
         "dbg (opt-level 1, debug-assertions, overflow-checks)"
     } else {
         "release (opt-level 3, no debug assertions)"
@@ -436,7 +438,14 @@ fn worker(prop: &props::PropDef, args: &Args) -> i32 {
             }
         });
     }
+    // VERIF_MAIN_STRIDE: the whole run is a 1/n sample (used for the SIMD-disabled build pass)
+    let main_stride = vlib::engine::env_u64("VERIF_MAIN_STRIDE", 1).max(1);
+    r.stride.store(main_stride, std::sync::atomic::Ordering::Relaxed);
+    if main_stride > 1 {
+        r.note(format!("this pass (a 1/{} sample of every phase) ran in a harness whose httparse was built with SIMD disabled at build time", main_stride));
+    }
     (prop.run)(&r);
+    r.stride.store(1, std::sync::atomic::Ordering::Relaxed);
     // alternate-backend passes: the semantic properties must hold whichever scanner backend
     // is dispatched to, so the same phases are run again — a 1/ALT_STRIDE sample of every
     // enumeration and of every random phase — with the scalar (SWAR) and the SSE4.2 arm
